@@ -83,6 +83,7 @@ fn val_json<'tcx>(m: &mut M<'tcx>, v: &V<'tcx>, t: Option<Ty<'tcx>>, depth: usiz
         V::OpaqueFn(n) => format!("{{\"fn\":{}}}", jstr(n)),
         V::Str(s) => format!("{{\"s\":{}}}", jstr(s)),
         V::SliceIter(..) => "\"sliceiter\"".into(),
+        V::Obj(n, _) => format!("\"obj:{}\"", n),
     }
 }
 
